@@ -105,7 +105,12 @@ type hOpts struct {
 
 func hReadOpts() hOpts {
 	o := hOpts{bs: vfParam("bs"), bc: vfParam("bc"), cc: vfParam("cc"), sizeopt: vfParam("sizeopt"), level: vfParam("level"), legacy: vfParam("legacy")}
-	if o.sizeopt != 0 {
+	if o.sizeopt == 2 {
+		o.size = uint64(vfParam("n")) // concrete: the actual content length
+		if o.size == 0 {
+			o.sizeopt = 0
+		}
+	} else if o.sizeopt != 0 {
 		o.size = vfU64("size")
 		vfAssume(o.size != 0) // SizeOption(0) means "no size"
 	}
